@@ -84,12 +84,19 @@ def norm_ast(expr: str) -> Optional[str]:
     return ast.dump(t)
 
 
-def layout(rng: random.Random, items: List[Tuple[str, Optional[str]]], is_async: bool, glob: bool = False, big: bool = False) -> Tuple[str, int]:
-    """Source of a function containing the with statement; returns (source, line of the `with` keyword)."""
+def layout(rng: random.Random, items: List[Tuple[str, Optional[str]]], is_async: bool, glob: bool = False, big: bool = False,
+           cell: Optional[str] = None, maybe: bool = False) -> Tuple[str, int]:
+    """Source of a function containing the with statement; returns (source, line of the `with` keyword).
+    cell: a name that an inner function uses too (a cell variable: LOAD_DEREF / STORE_DEREF); maybe: `loc` is bound on one path only
+    (its loads are LOAD_FAST_CHECK)."""
     kw = "async with" if is_async else "with"
     parts = [f"{cm}" + (f" as {t}" if t is not None else "") for cm, t in items]
     style = rng.choice(["one", "paren_multi", "paren_one", "backslash"]) if len(items) > 1 or rng.random() < 0.5 else "one"
     pre = (["    global G", "    loc = None"] if glob else ["    loc = G = None", "    pad = 1"]) + ["    pad += 1"] * rng.randint(0, 3)
+    if maybe and not glob:
+        pre = ["    G = None", "    pad = 1", "    if pad:", "        loc = None"] + ["    pad += 1"] * rng.randint(0, 3)
+    if cell:
+        pre = pre + [f"    _inner = lambda: {cell}"]
     if big:
         # a large code object: 140 global names come first, so the LOAD_GLOBAL that begins the with statement's line needs an
         # EXTENDED_ARG prefix (dis attaches the line start to the prefix)
@@ -111,12 +118,14 @@ def layout(rng: random.Random, items: List[Tuple[str, Optional[str]]], is_async:
     return "\n".join(lines) + "\n", 1 + len(pre) + 1
 
 
-def to_term(target: str, glob: bool):
+def to_term(target: str, glob: bool, cell: Optional[str] = None):
     """The target as a term of the Lean grammar (SS.Target.Tgt), an independent count of the instructions the model compiler
     should emit for it, and its text rendered by the documented conventions."""
     t = ast.parse(target, mode="eval").body
 
     def scope(name):
+        if cell is not None and name == cell:
+            return "deref"
         return "global" if (glob and name == "G") else "fast"
 
     def is_super_attr(n) -> bool:
@@ -199,6 +208,9 @@ NAME_OPS = {"LOAD_GLOBAL", "LOAD_FAST", "LOAD_NAME", "LOAD_DEREF", "STORE_GLOBAL
 
 
 def canon_row(i: dis.Instruction) -> str:
+    if i.opname == "LOAD_FAST_CHECK":
+        # (the compiler model does not track on which paths a local is bound)
+        return f"LOAD_FAST/{i.argval}/0/"
     av = i.argval if (i.opname in NAME_OPS and isinstance(i.argval, str)) else ""
     arg = i.arg if i.opname in ("UNPACK_SEQUENCE", "UNPACK_EX", "CALL") else (i.arg & 3) if i.opname == "LOAD_SUPER_ATTR" else 0
     rep = i.argrepr if i.opname == "LOAD_CONST" else ""
@@ -235,6 +247,12 @@ class C08(PropCheck):
                 items.append([rng.choice(["cm", "cm2", "open(a)"]), t])
             out.append({"k": "gen", "items": items, "async": rng.random() < 0.4, "lseed": rng.randrange(1 << 30), "glob": rng.random() < 0.3,
                         "big": rng.random() < 0.12})
+            if not out[-1]["glob"] and not out[-1]["big"]:
+                r2 = rng.random()
+                if r2 < 0.2:
+                    out[-1]["cell"] = rng.choice(["a", "b", "loc"])
+                elif r2 < 0.35:
+                    out[-1]["maybe"] = True
             if out[-1]["big"]:
                 out[-1]["glob"] = False      # (the model compiler does not track name indices: a global target would need a prefix of its own)
         for t in UNSUPPORTED:
@@ -261,7 +279,8 @@ class C08(PropCheck):
             return self.run_file(case["path"])
         if case["k"] == "dyn":
             return self.run_dyn(case)
-        src, with_line = layout(random.Random(case["lseed"]), [tuple(x) for x in case["items"]], case["async"], case.get("glob", False), case.get("big", False))
+        src, with_line = layout(random.Random(case["lseed"]), [tuple(x) for x in case["items"]], case["async"], case.get("glob", False), case.get("big", False),
+                                cell=case.get("cell"), maybe=case.get("maybe", False))
         ns: Dict[str, Any] = {}
         try:
             code = compile(src, "<c08>", "exec")
@@ -307,7 +326,7 @@ class C08(PropCheck):
             # the model of the compiler (compileStore) against dis, for targets inside the documented grammar
             if target is not None and target not in UNSUPPORTED and self.is_supported(target):
                 try:
-                    term, count, text = to_term(target, case.get("glob", False))
+                    term, count, text = to_term(target, case.get("glob", False), case.get("cell"))
                 except ValueError:
                     term = None
                 if term is not None:
